@@ -764,7 +764,45 @@ func genCase(t *rapid.T) Case {
 		} else if rapid.Bool().Draw(t, "prologue") {
 			target = "signedexchange.ReadExchangePrologue"
 		}
-		switch rapid.IntRange(0, 4).Draw(t, "sxgmut") {
+		switch rapid.IntRange(0, 5).Draw(t, "sxgmut") {
+		case 5:
+			// several signatures in one Signature header (the verifier tries them in turn): the same
+			// member repeated under other labels (same cert-url, same everything), optionally with one
+			// parameter of a copy damaged; together with a certificate chain that may not parse
+			pos := 8
+			if file[6] != '1' {
+				pos = 10 + int(binary.BigEndian.Uint16(file[8:10]))
+			}
+			if len(file) >= pos+6 {
+				sl := int(file[pos])<<16 | int(file[pos+1])<<8 | int(file[pos+2])
+				if len(file) >= pos+6+sl {
+					sig := string(file[pos+6 : pos+6+sl])
+					members := []string{sig}
+					for k := rapid.IntRange(1, 3).Draw(t, "msigs"); k > 0; k-- {
+						m := strings.Replace(sig, "label;", fmt.Sprintf("label%d;", k), 1)
+						switch rapid.IntRange(0, 3).Draw(t, "msigmut") {
+						case 0:
+							m = strings.Replace(m, "cert-url=\"", "cert-url=\"https://other.example/x?", 1)
+						case 1:
+							m = strings.Replace(m, "date=", "date=1", 1)
+						}
+						if rapid.Bool().Draw(t, "msigfront") {
+							members = append([]string{m}, members...)
+						} else {
+							members = append(members, m)
+						}
+					}
+					ns := strings.Join(members, ", ")
+					nf := append([]byte{}, file[:pos]...)
+					nf = append(nf, byte(len(ns)>>16), byte(len(ns)>>8), byte(len(ns)))
+					nf = append(nf, file[pos+3:pos+6]...)
+					nf = append(nf, ns...)
+					file = append(nf, file[pos+6+sl:]...)
+				}
+			}
+			if kind == "sxg-verify" {
+				certs = rapid.SampledFrom([][]byte{certs, certs, []byte("not a certificate chain"), {}, {0x80}, certs[:len(certs)/2]}).Draw(t, "msigcerts")
+			}
 		case 4: // untouched: the code behind a VALID signature (acceptance policy) is parser code too
 		case 0: // length fields of the prologue
 			off := 8
